@@ -446,6 +446,9 @@ func c10GenStep(t *rapid.T, w gen.World) []c10Step {
 		}
 		return steps
 	case "ra":
+		if rapid.Bool().Draw(t, "structuredRA") { // every option kind with its edge values (/128 and /0 prefixes, 16+ DNS servers, ...), from one of two routers
+			return []c10Step{{K: "pkt", Times: 4, Data: genC14RA(t, rapid.IntRange(0, 1).Draw(t, "router")).frame(w)}}
+		}
 		src := lla
 		dst := netip.MustParseAddr("ff02::1").As16()
 		body := append([]byte{64, byte(rapid.SampledFrom([]int{0, 0x80, 0x40, 0xc8}).Draw(t, "flags")), 0x07, 0x08, 0, 0, 0x10, 0, 0, 0, 0x20, 0}, gen.NDPOptionsRaw(t, false)...)
